@@ -257,10 +257,13 @@ class Engine:
                 m.attrs[name] = int(a2)
                 m.stack.append(int(a2))
                 n_items = 0
-                for _ in it:
-                    n_items += 1
-                    if n_items > (int(a2) % 3):
-                        break  # the server may stop iterating early
+                if int(a2) % 4 != 3:  # (3: the server closes the response without taking a single item)
+                    for _ in it:
+                        n_items += 1
+                        if n_items > (int(a2) % 4):
+                            break  # the server may stop iterating early
+                else:
+                    self.out.probe("response_closed_before_first_item")
                 mid = self.observe()
                 if mid != m.snapshot():
                     self.vio("visible-state-differs/after=wsgi-request-body", f"context {c} sees {mid} during the request, model {m.snapshot()}")
@@ -280,7 +283,8 @@ class Engine:
                 if c not in self.pending:
                     return
                 it = self.pending.pop(c)
-                next(iter(it), None)
+                if int(a2) % 2 == 0:
+                    next(iter(it), None)
                 it.close()
                 m.attrs = {}
                 m.stack = []
@@ -383,6 +387,17 @@ class Engine:
             elif exp[0] == "unbound" and done != "RuntimeError":
                 self.vio(f"proxy-unbound-behaviour/{tag}", f"context {c}: write through an unbound proxy gave {done}, expected RuntimeError")
             return
+        # an in-place operator through the proxy leaves the name a proxy (it never turns into one context's raw object)
+        if exp[0] == "bound" and not isinstance(exp[1], tuple) and isinstance(self.real(exp[1]), int):
+            q = p
+            try:
+                q += 1
+            except Exception as e:  # noqa: BLE001
+                self.vio(f"proxy-forwards-wrongly/{tag}", f"context {c}: += through a proxy bound to an int raised {type(e).__name__}")
+                return
+            if q is not p:
+                self.vio(f"proxy-replaced-by-raw-object/{tag}", f"context {c}: after `q += 1` the name holds {type(q).__name__} {q!r} instead of the proxy")
+                return
         # read
         try:
             obj = p._get_current_object()
